@@ -612,7 +612,12 @@ Definition read_strict (file : list N) : rs_result :=
                                                        match nth_error pairs (N.to_nat idx) with
                                                        | Some (onum, ooff) =>
                                                            if negb (onum =? k) then inr (14, k) else
-                                                           match parse_obj (fuel + length data) (skipn (N.to_nat (first + ooff)) data) with
+                                                           (* 7.5.7: a member extends to the next member's offset (or the end of the data) *)
+                                                           let extent := match nth_error pairs (S (N.to_nat idx)) with
+                                                                         | Some (_, noff) => if ooff <? noff then N.to_nat (noff - ooff) else length data
+                                                                         | None => length data
+                                                                         end in
+                                                           match parse_obj (fuel + length data) (firstn extent (skipn (N.to_nat (first + ooff)) data)) with
                                                            | Some (v, _) =>
                                                                inl ({| so_num := k; so_gen := 0; so_where := XComp stm idx; so_val := v;
                                                                        so_stream := None; so_end := 0 |} :: cobjs)
